@@ -866,6 +866,66 @@ def mutating_subscriber_probe(kind):
     return simnet.run(go)
 
 
+def foreign_loop_va_probe():
+    """The client object was constructed while another event loop was current (built before asyncio.run()); on the running loop a
+    voice-assistant subscription gets a start request, audio and a stop request: each handler runs once and the start is answered
+    with the port. Returns a list of problems."""
+    cli, other = simnet.client_built_elsewhere()
+
+    async def go(loop):
+        from aioesphomeapi import api_pb2 as pb
+        net = simnet.Net(loop)
+        calls, problems = [], []
+
+        async def handle_start(conv, flags, settings, wake):
+            calls.append("start")
+            return 7766
+
+        async def handle_stop(abort):
+            calls.append("stop")
+
+        async def handle_audio(data):
+            calls.append("audio")
+        with net.patched():
+            _, tr = await simnet.connected_client(loop, net, client=cli)
+            cli.subscribe_voice_assistant(handle_start=handle_start, handle_stop=handle_stop, handle_audio=handle_audio)
+            await simnet.drain(loop)
+            n_w = len(tr.writes)
+            r = tr.feed(simnet.plain_msg(pb.VoiceAssistantRequest(start=True, conversation_id="c", flags=1)))
+            await simnet.drain(loop)
+            if isinstance(r, BaseException):
+                problems.append(f"{type(r).__name__}({r}) escaped from data_received")
+            if not tr.closing:
+                tr.feed(simnet.plain_msg(pb.VoiceAssistantAudio(data=b"pcm")))
+                await simnet.drain(loop)
+                tr.feed(simnet.plain_msg(pb.VoiceAssistantRequest(start=False)))
+                await simnet.drain(loop)
+            await simnet.advance(loop, by=1.0)
+            answers = []
+            for _, d in tr.writes[n_w:]:
+                for ty, payload in simnet.decode_plain_stream(d):
+                    if ty == 91:
+                        m = pb.VoiceAssistantResponse()
+                        m.ParseFromString(payload)
+                        answers.append((m.port, m.error))
+            if calls != ["start", "audio", "stop"]:
+                problems.append(f"handlers invoked: {calls}, expected ['start', 'audio', 'stop']")
+            if answers != [(7766, False)]:
+                problems.append(f"answers to the start request: {answers}, expected one with port 7766")
+            try:
+                await cli.disconnect(force=True)
+            except Exception:  # noqa: BLE001
+                pass
+            await simnet.drain(loop)
+        return problems
+    try:
+        return simnet.run(go)
+    except Exception as e:  # noqa: BLE001
+        return ["raised " + type(e).__name__ + ": " + str(e)[:80]]
+    finally:
+        other.close()
+
+
 def run(rep, tier, seed):
     rng = random.Random(seed)
     rep.coverage["rule"] = (
@@ -925,6 +985,12 @@ def run(rep, tier, seed):
                                   f"{' (advertisement name is not valid UTF-8)' if bad_name else ''}: callbacks per message {per_msg}, expected {want}"
                                   f"{'' if alive else '; the connection was closed'}",
                                   {"kind": "self-unsub", "subscription": kind, "who": who, "bad_name": bad_name})
+    problems = foreign_loop_va_probe()
+    rep.case(("foreign-loop-voice-assistant",), True, sample={"client_built_under_another_loop": "voice-assistant", "problems": problems})
+    rep.bump("probe:foreign-loop")
+    if problems:
+        rep.violation("C17/voice-assistant", f"APIClient constructed while another event loop was current, voice-assistant subscription on the running loop: {'; '.join(problems[:3])}",
+                      {"kind": "foreign-loop-va"})
     for kind in ("adv", "service-call"):
         problems = mutating_subscriber_probe(kind)
         rep.case(("mutating-subscriber", kind), True, sample={"mutating_subscriber": kind, "problems": problems[:2]})
@@ -945,6 +1011,10 @@ def run(rep, tier, seed):
 def replay(path):
     common.setup_impl_path()
     d = json.loads(open(path).read())["replay"]
+    if d.get("kind") == "foreign-loop-va":
+        problems = foreign_loop_va_probe()
+        print(problems)
+        return 1 if problems else 0
     if d.get("kind") == "mutating-subscriber":
         problems = mutating_subscriber_probe(d["subscription"])
         print(problems)
